@@ -24,7 +24,8 @@ PRED_PROP = {
 
 
 def mc_config(name, consts, invariants, spec="MCSpec", props=None):
-    lines = ["SPECIFICATION " + spec, "CONSTANTS", "  Caps <- MCCaps", "  Conns <- MCConns", "  Pieces <- MCPieces", "  Port <- MCPort"]
+    caps = "MCCapsBad" if "badcap" in consts.get("Extra", "") else "MCCaps"
+    lines = ["SPECIFICATION " + spec, "CONSTANTS", "  Caps <- " + caps, "  Conns <- MCConns", "  Pieces <- MCPieces", "  Port <- MCPort"]
     consts = dict(consts)
     consts.setdefault("Crashes", "FALSE")
     consts.setdefault("Restarts", "FALSE")
@@ -260,9 +261,9 @@ GEN = {
     # pid: (constants of ManagerGen, MaxLen, regress tags)
     "C06": ({"TagNames": '{"tag/a", "tag/b", "mark/m"}', "ConvNames": "{}", "MaxCalls": 7, "MaxViews": 1, "Menu": '"tagsb"', "Invalid": "FALSE"}, 44),
     "C09": ({"TagNames": '{"tag/a", "tag/b", "mark/m"}', "ConvNames": "{}", "MaxCalls": 6, "MaxViews": 1, "Menu": '"tagsb"', "Invalid": "FALSE"}, 40),
-    "C10": ({"TagNames": '{"tag/a"}', "ConvNames": "{}", "MaxCalls": 7, "MaxViews": 3, "Menu": '"files"', "Invalid": "FALSE"}, 40),
+    "C10": ({"TagNames": '{"tag/a"}', "ConvNames": "{}", "MaxCalls": 7, "MaxViews": 3, "Menu": '"files"', "Invalid": "FALSE", "Extra": '{"badcap"}'}, 40),
     "C11": ({"TagNames": '{"tag/a", "tag/b", "mark/m"}', "ConvNames": "{}", "MaxCalls": 12, "MaxViews": 0, "Menu": '"tagsb"', "Invalid": "TRUE", "Extra": '{"rename", "color"}'}, 34),
-    "C13": ({"TagNames": '{"tag/a"}', "ConvNames": "{}", "MaxCalls": 8, "MaxViews": 3, "Menu": '"files"', "Invalid": "FALSE", "Extra": '{"mergefail"}'}, 40),
+    "C13": ({"TagNames": '{"tag/a"}', "ConvNames": "{}", "MaxCalls": 8, "MaxViews": 3, "Menu": '"files"', "Invalid": "FALSE", "Extra": '{"mergefail", "badcap"}'}, 40),
     "C12": ({"TagNames": '{"tag/a", "tag/b", "mark/m"}', "ConvNames": '{"cv"}', "MaxCalls": 12, "MaxViews": 1, "Menu": '"conv"', "Invalid": "FALSE", "Crashes": "TRUE",
              "Restarts": "TRUE", "Extra": '{"rename", "color", "settings"}'}, 50),
     "C16": ({"TagNames": '{"tag/a", "tag/b", "mark/m"}', "ConvNames": '{"cv"}', "MaxCalls": 10, "MaxViews": 1, "Menu": '"conv"', "Invalid": "FALSE", "Crashes": "TRUE",
@@ -295,7 +296,11 @@ MC = {
             # a definition whose evaluation always fails (payload filter on a converter that does not exist) is decided as empty
             ("liveness-errs", {"TagNames": '{"tag/a"}', "ConvNames": "{}", "MaxCalls": 2, "MaxViews": 0, "Menu": '"errs"', "Invalid": "FALSE"}, [])],
     "C10": [("files", {"TagNames": '{"tag/a"}', "ConvNames": "{}", "MaxCalls": 3, "MaxViews": 2, "Menu": '"files"', "Invalid": "FALSE"},
-             ["ViewComplete", "OneIdPerConn"])],
+             ["ViewComplete", "OneIdPerConn"]),
+            # an unreadable capture file among the uploads: the batch ends before it, at the head of a batch it is dropped
+            ("badcap", {"TagNames": '{"tag/a"}', "ConvNames": "{}", "MaxCalls": 3, "MaxViews": 1, "Menu": '"files"', "Invalid": "FALSE",
+                        "Extra": '{"badcap"}'},
+             ["ViewComplete", "OneIdPerConn", "NoUseAfterFree", "Balanced", "NeverStuck", "FlagsMatchJobs"])],
     "C11": [("calls", {"TagNames": '{"tag/a", "mark/m"}', "ConvNames": "{}", "MaxCalls": 3, "MaxViews": 0, "Menu": '"tags"', "Invalid": "TRUE"},
              ["GraphWellFormed"]),
             # rename / colour: a rename moves the tag record and the reverse references; a job in flight for the old name is dropped
